@@ -173,6 +173,7 @@ MainEqs(i) == IF i = 1 THEN <<Eq(RefI(<<"x">>, XIx), Lit(1))>>
               ELSE IF pv.fan = 2 THEN <<Eq(Ref(<<IN2(i)>> \o DownA(i - 1) \o <<"z">>), Lit(i))>> ELSE <<>>
 RestEqs(i) == IF i = 1 THEN <<Eq(Ref(<<"z">>), Bin("+", RefI(<<"x">>, XIx), Ref(<<"p">>)))>>
               ELSE <<Eq(Ref(<<"y">>), Bin("*", RefI(XPath(i), XIx), Ref(<<"p">>)))>>
+MainIeqs(i) == IF pv.ieq THEN <<Eq(RefI(XPath(i), XIx), Lit(7))>> ELSE <<>>
 RestIeqs(i) == IF pv.ieq THEN (IF i = 1 THEN <<Eq(Ref(<<"z">>), Lit(0))>>
                                ELSE <<Eq(RefI(XPath(i), XIx), Ref(<<"p">>))>>) ELSE <<>>
 
@@ -185,21 +186,21 @@ LevelClasses(s, i, innerMain, innerBase) ==
         xa == ExtArgs(s, i)
     IN CASE md = "none" ->
               <<Cl("model", n, <<>>, innerMain, <<PComp(i)>> \o MainComps(s, i) \o RestComps(i),
-                   MainEqs(i) \o RestEqs(i), RestIeqs(i))>>
+                   MainEqs(i) \o RestEqs(i), MainIeqs(i) \o RestIeqs(i))>>
          [] md = "one" ->
-              <<Cl("model", n \o "B", <<>>, innerMain, <<PComp(i)>> \o MainComps(s, i), MainEqs(i), <<>>),
+              <<Cl("model", n \o "B", <<>>, innerMain, <<PComp(i)>> \o MainComps(s, i), MainEqs(i), MainIeqs(i)),
                 Cl("model", n, <<Ext(BaseRef(i, n \o "B"), xa)>>, <<>>, RestComps(i) \o PClash(i), RestEqs(i), RestIeqs(i))>>
          [] md = "late" ->
               <<Cl("model", n \o "B", <<>>, innerBase, <<PComp(i)>>, <<>>, <<>>),
                 Cl("model", n, <<Ext(BaseRef(i, n \o "B"), <<>>)>>, innerMain, MainComps(s, i) \o RestComps(i) \o PClash(i),
-                   MainEqs(i) \o RestEqs(i), RestIeqs(i))>>
+                   MainEqs(i) \o RestEqs(i), MainIeqs(i) \o RestIeqs(i))>>
          [] md = "chain" ->
               <<Cl("model", n \o "B0", <<>>, <<>>, <<PComp(i)>>, <<>>, <<>>),
-                Cl("model", n \o "B", <<Ext(<<n \o "B0">>, <<>>)>>, innerMain, MainComps(s, i), MainEqs(i), <<>>),
+                Cl("model", n \o "B", <<Ext(<<n \o "B0">>, <<>>)>>, innerMain, MainComps(s, i), MainEqs(i), MainIeqs(i)),
                 Cl("model", n, <<Ext(BaseRef(i, n \o "B"), xa)>>, <<>>, RestComps(i) \o PClash(i), RestEqs(i), RestIeqs(i))>>
          [] md = "multi" ->
               <<Cl("model", n \o "BA", <<>>, <<>>, <<PComp(i)>>, <<>>, <<>>),
-                Cl("model", n \o "BB", <<>>, innerMain, MainComps(s, i), MainEqs(i), <<>>),
+                Cl("model", n \o "BB", <<>>, innerMain, MainComps(s, i), MainEqs(i), MainIeqs(i)),
                 Cl("model", n, <<Ext(BaseRef(i, n \o "BA"), <<>>), Ext(BaseRef(i, n \o "BB"), xa)>>, <<>>,
                    RestComps(i) \o PClash(i), RestEqs(i), RestIeqs(i))>>
 
@@ -622,11 +623,11 @@ LeafShapes == ({"Real", "Integer", "Boolean", "aR", "aI", "aB", "aaR"} \X (0..2)
 HierFamily ==
     IF Family # "hier" THEN {} ELSE
     UNION {
-        {PV(d, f, sm, w, n, s, "Real", 0, "", "", FALSE, "", <<>>, FALSE, FALSE) :
+        {PV(d, f, sm, w, n, s, "Real", 0, "", "", TRUE, "", <<>>, FALSE, FALSE) :
             f \in (IF d = 1 THEN {1} ELSE 1..2), sm \in (IF d = 1 THEN {FALSE} ELSE BOOLEAN),
             w \in 0..3, n \in {"lib", "user", "userbase"}, s \in SplitSeqs(d)}
         \* the two dedicated shapes: own element replaces the inherited one / nested class shadows a library class
-        \cup {PV(d, 1, FALSE, w, n, s, "Real", 0, "", "", FALSE, "", <<>>, c[1], c[2]) :
+        \cup {PV(d, 1, FALSE, w, n, s, "Real", 0, "", "", TRUE, "", <<>>, c[1], c[2]) :
             w \in {0, 1}, n \in {"lib", "user", "userbase"}, s \in SplitSeqs(d), c \in {<<TRUE, FALSE>>, <<FALSE, TRUE>>, <<TRUE, TRUE>>}}
         \cup {PV(d, 1, FALSE, w, "lib", s, l[1], l[2], l[3], l[4], l[5], "", <<>>, FALSE, FALSE) :
             w \in (IF Wide THEN {0, 1} ELSE {0}),
